@@ -237,6 +237,9 @@ type EnvRec struct {
 type ZAmb1 struct{ Amb int }
 type ZAmb2 struct{ Amb int }
 
+// a defined func type of the "fast" shape
+type ZNamedFast func(...interface{}) interface{}
+
 type EnvScalars struct {
 	ZAmb1
 	ZAmb2
@@ -276,6 +279,9 @@ type EnvScalars struct {
 	Fy   func(...interface{}) int         // variadic over interface{}, but not fast (result type)
 	Fn   func()                           // no result
 	F2   func() (int, int)                // two results
+	Nf   ZNamedFast                       // named func type of the fast shape: not fast
+	Fe   func(...interface{}) error       // result of interface kind, but not interface{}: not fast
+	Fg   func(...ZStringer) interface{}   // variadic over a non-empty interface: not fast
 	PPSt **ZA                             // two pointer levels
 	Sg   ZStringer                        // a non-empty interface ...
 	Zs   zstr                             // ... and a type implementing it (assignable one way only)
